@@ -126,19 +126,20 @@ def is_boolterm(t):
 
 
 class Ptr:
-    __slots__ = ('box', 'path', 'off')
+    """Pointer value: box + path to an object; `elem` pointers address element `off` of the array at path."""
+    __slots__ = ('box', 'path', 'off', 'elem')
 
-    def __init__(self, box, path, off=0):
-        self.box, self.path, self.off = box, tuple(path), off
+    def __init__(self, box, path, off=0, elem=False):
+        self.box, self.path, self.off, self.elem = box, tuple(path), off, elem
 
     def __eq__(self, o):
-        return isinstance(o, Ptr) and (self.box, self.path, self.off) == (o.box, o.path, o.off)
+        return isinstance(o, Ptr) and (self.box, self.path, self.off, self.elem) == (o.box, o.path, o.off, o.elem)
 
     def __hash__(self):
-        return hash((self.box, self.path, self.off))
+        return hash((self.box, self.path, self.off, self.elem))
 
     def __repr__(self):
-        return 'Ptr(%s,%s,%s)' % (self.box, self.path, self.off)
+        return 'Ptr(%s,%s,%s,%s)' % (self.box, self.path, self.off, self.elem)
 
 
 class Undef:
@@ -252,7 +253,9 @@ class SymEx:
         v = st.mem[p.box]
         for step in p.path:
             v = v[step]
-        if isinstance(v, list):
+        if p.elem:
+            if not (0 <= p.off < len(v)):
+                raise Unsupported('array read out of bounds')
             return v[p.off]
         if p.off != 0:
             raise Unsupported('read past a scalar object')
@@ -261,18 +264,17 @@ class SymEx:
     def store(self, st, p, val):
         def upd(v, path):
             if not path:
-                if isinstance(v, list) and not isinstance(val, list):
+                if p.elem:
+                    if not (0 <= p.off < len(v)):
+                        raise Unsupported('array write out of bounds')
                     nv = list(v)
                     nv[p.off] = val
                     return nv
-                if p.off != 0 and not isinstance(v, list):
+                if p.off != 0:
                     raise Unsupported('write past a scalar object')
                 return val
             step = path[0]
-            if isinstance(v, dict):
-                nv = dict(v)
-            else:
-                nv = list(v)
+            nv = dict(v) if isinstance(v, dict) else list(v)
             nv[step] = upd(v[step], path[1:])
             return nv
         st.mem[p.box] = upd(st.mem[p.box], list(p.path))
@@ -447,13 +449,13 @@ class SymEx:
             if not is_num(i):
                 raise Unsupported('symbolic array index')
             p = self._sub(st, p, None)
-            return Ptr(p.box, p.path, int(i[1]))
+            return Ptr(p.box, p.path, int(i[1]), True)
         if k == 'pidx':
             p = self.ev(e[2], env, st)
             i = self.ev(e[3], env, st)
             if not is_num(i):
                 raise Unsupported('symbolic pointer index')
-            return Ptr(p.box, p.path, p.off + int(i[1]))
+            return Ptr(p.box, p.path, p.off + int(i[1]), p.elem)
         if k == 'deref':
             p = self.ev(e[2], env, st)
             if not isinstance(p, Ptr):
@@ -474,21 +476,14 @@ class SymEx:
         raise Unsupported('lvalue %s' % k)
 
     def _sub(self, st, p, step):
-        # normalise: a pointer to array element i of an array at path -> descend
-        if p.off != 0 or self._is_list(st, p):
-            if self._is_list(st, p) and step is None:
-                return p
-            # element pointer: move offset into path
-            p = Ptr(p.box, p.path + (p.off,), 0) if self._is_list(st, p) else p
+        """Descend from the object p points to: into field `step`, or (step None) stay on the array."""
+        if p.elem:
+            p = Ptr(p.box, p.path + (p.off,), 0, False)
+        elif p.off != 0:
+            raise Unsupported('member access past a scalar object')
         if step is None:
             return p
-        return Ptr(p.box, p.path + (step,), 0)
-
-    def _is_list(self, st, p):
-        v = st.mem[p.box]
-        for s in p.path:
-            v = v[s]
-        return isinstance(v, list)
+        return Ptr(p.box, p.path + (step,), 0, False)
 
     def ev(self, e, env, st):
         k = e[0]
@@ -640,9 +635,9 @@ class SymEx:
             if not is_num(b):
                 raise Unsupported('symbolic pointer arithmetic')
             d = int(b[1]) if op == '+' else -int(b[1])
-            return Ptr(a.box, a.path, a.off + d)
+            return Ptr(a.box, a.path, a.off + d, a.elem)
         if isinstance(a, Ptr) and isinstance(b, Ptr):
-            if (a.box, a.path) != (b.box, b.path):
+            if (a.box, a.path, a.elem) != (b.box, b.path, b.elem):
                 raise Unsupported('comparison of unrelated pointers')
             return cmp(op, num(a.off), num(b.off))
         raise Unsupported('pointer op %s' % op)
